@@ -29,7 +29,7 @@ class PiKey(SSEKey):
 
     @classmethod
     def deserialize(cls, xbytes: bytes, config: PiConfig):
-        if len(xbytes) != config.param_k:
+        if len(xbytes) != config.param_lambda:
             raise ValueError("The length of xbytes must be the same as the length of the parameter param_lambda.")
 
         return cls(xbytes)
